@@ -140,6 +140,19 @@ pub trait World {
 }
 
 // ---------------------------------------------------------------------------
+// Exploration depth: 0 = the standard swarm; 1 = half of the runs are drawn from a deeper
+// distribution (many more long-lived histories, longer texts). One value per process, set
+// from the command line before anything runs; part of what a context replay must restore.
+
+static DEPTH: std::sync::atomic::AtomicU8 = std::sync::atomic::AtomicU8::new(0);
+pub fn set_depth(d: u8) {
+    DEPTH.store(d, std::sync::atomic::Ordering::Relaxed);
+}
+pub fn depth() -> u8 {
+    DEPTH.load(std::sync::atomic::Ordering::Relaxed)
+}
+
+// ---------------------------------------------------------------------------
 // Panic capture. The executor notes where it is before every call into the
 // crate; the hook stores the message; nothing is printed.
 
@@ -485,7 +498,7 @@ pub fn run_batch<W: World>(cfg: &BatchCfg) -> Result<BatchResult, String> {
             wait_one(&mut running, &mut failed);
         }
         let mut cmd = std::process::Command::new(&exe);
-        cmd.arg("lane").arg("--prop").arg(&cfg.prop).arg("--seed").arg(cfg.base_seed.to_string()).arg("--runs").arg(cfg.runs.to_string()).arg("--lane").arg(lane.to_string()).arg("--lanes").arg(lanes.to_string()).arg("--values-runs").arg(cfg.values_runs.to_string()).arg("--out").arg(dir.join(format!("lane-{}.bin", lane)));
+        cmd.arg("lane").arg("--prop").arg(&cfg.prop).arg("--seed").arg(cfg.base_seed.to_string()).arg("--runs").arg(cfg.runs.to_string()).arg("--lane").arg(lane.to_string()).arg("--lanes").arg(lanes.to_string()).arg("--values-runs").arg(cfg.values_runs.to_string()).arg("--depth").arg(depth().to_string()).arg("--out").arg(dir.join(format!("lane-{}.bin", lane)));
         if cfg.keep_run_digests {
             cmd.arg("--keep-run-digests");
         }
